@@ -20,7 +20,7 @@ VARIABLES i, k, granted, loaded, ctx, hist
 P == INSTANCE BlocPlugin
 tvars == <<i, k, granted, loaded, ctx, hist>>
 
-ObjMods(o) == {o.vars[j].val.modn : j \in {j \in DOMAIN o.vars : o.vars[j].val.t = "obj"}}
+ObjMods(o) == {o.vars[j].val.modn : j \in {j \in DOMAIN o.vars : o.vars[j].val.t = "obj" /\ "modn" \in DOMAIN o.vars[j].val}}
 Report(id, kk, why) == PrintT("@@V " \o ToJson([id |-> id, k |-> kk, why |-> why]))
 
 \* the BlocPlugin action that corresponds to a recorded step
